@@ -157,9 +157,9 @@ def run(db, cx):
             return env["A"] if c["op"] == "==" else (not env["A"]) if c["op"] == "!=" else None
         if c.get("renum", "").endswith("TrackOrder::init_charge"):
             return env["B"] if c["op"] == "==" else (not env["B"]) if c["op"] == "!=" else None
-        if c.get("op") == ">" and c.get("lrefs") == ["num_secondaries"] and c.get("rlit") == "0":
+        if c.get("op") == ">" and c.get("lrefs") == [svar] and c.get("rlit") == "0":
             return env["S"]
-        if c.get("core") == "initialized" or c.get("var") == "initialized":
+        if ivar is not None and (c.get("core") == ivar or c.get("var") == ivar):
             return not env["I"]
         if c.get("op") in ("&&", "||"):
             return "skip"
@@ -174,15 +174,21 @@ def run(db, cx):
         return follow(f, start, truth, targets)
 
     # LocateAlive: block that decrements num_secondaries = "keep slot for first secondary"
-    la_dec = [b for (b, i, ev) in la.events("def") if ev.get("var") == "num_secondaries"
-              and ev.get("op") == "--"]
-    cx.require(len(la_dec) == 1, "LocateAlive lambda: expected one --num_secondaries")
+    la_decs = [(b, ev.get("var")) for (b, i, ev) in la.events("def") if ev.get("op") == "--"]
+    cx.require(len(la_decs) == 1, "LocateAlive lambda: expected exactly one decrement of the "
+               "secondary counter")
+    la_dec = [la_decs[0][0]]
+    svar = la_decs[0][1]          # the per-track secondary counter (whatever it is called)
     # ProcessSecondaries: in-place block = calls SimTrackView::operator=
     ps_in = [b for (b, i, ev) in ps.calls(C + "SimTrackView::operator=")]
     ps_else = [b for (b, i, ev) in ps.events("write")
                if path_leaf(ev.get("path")) == TIS + "initializers"]
     cx.require(len(ps_in) == 1 and len(ps_else) >= 1,
                "ProcessSecondaries: in-place / queued arms not found")
+    # the "already initialised in place" flag: the local bool set to true in the in-place arm
+    ivars = [e.get("var") for e in ps.blocks[ps_in[0]]["ev"]
+             if e["e"] == "def" and e.get("rhs") == "true"]
+    ivar = ivars[0] if ivars else None
     # start of the decision in ProcessSecondaries: true edge of `if (secondary)`
     sec_br = ps.branch_blocks(lambda c, _b: c.get("conv", "").endswith("Secondary::operator bool")
                               or c.get("core") == "secondary")
